@@ -330,6 +330,8 @@ struct Mon<'a> {
     work_alloc: u64,
     work_input: u64,
     work_calls: u64,
+    work_ratio_milli: u64,
+    work_worst: (u64, u64),
 }
 
 impl<'a> Mon<'a> {
@@ -390,11 +392,18 @@ impl<'a> Write for Mon<'a> {
         }
         let w0 = crate::alloc_meter::work_bytes();
         let res = self.stream.write(buf);
-        self.work_alloc += crate::alloc_meter::work_bytes().wrapping_sub(w0);
+        let wa = crate::alloc_meter::work_bytes().wrapping_sub(w0);
+        self.work_alloc += wa;
         // the call may have to look at what earlier writes left pending
         let last_term = self.rend.term_ends.iter().cloned().filter(|&t| t <= before).max().unwrap_or(0);
-        self.work_input += (buf.len() + (before - last_term)) as u64;
+        let wi = (buf.len() + (before - last_term)) as u64;
+        self.work_input += wi;
         self.work_calls += 1;
+        let wr = wa.saturating_mul(1000) / (wi + CALL_ALLOWANCE);
+        if wr > self.work_ratio_milli {
+            self.work_ratio_milli = wr;
+            self.work_worst = (wa, wi);
+        }
         self.writes.push((buf.len(), res.is_ok()));
         let bad_idx = self.sc.bad.as_ref().map(|b| b.index);
         match res {
@@ -713,6 +722,8 @@ impl Property for C09 {
             work_alloc: 0,
             work_input: 0,
             work_calls: 0,
+            work_ratio_milli: 0,
+            work_worst: (0, 0),
         };
         let mut upstream_fault = false;
         match sc.driver {
@@ -786,6 +797,10 @@ impl Property for C09 {
         ctx.lib_alloc += mon.work_alloc;
         ctx.lib_input += mon.work_input;
         ctx.lib_calls += mon.work_calls;
+        if mon.work_ratio_milli > ctx.work_ratio_milli {
+            ctx.work_ratio_milli = mon.work_ratio_milli;
+            ctx.work_worst = mon.work_worst;
+        }
         if let Some(b) = &sc.bad {
             ctx.probe(if b.index == 0 {
                 "bad-entry-first"
